@@ -20,6 +20,14 @@ Containment: every path handed to twisted lives under one mkdtemp() top and ALL 
 crash-free phases and the reboots) runs inside a FaultFS, which refuses — without executing — any
 mutating filesystem call outside that top and reports it as `filesystem-call-outside-scratch`.
 
+Interrupts (a process that SURVIVES): for set operations every call of the write phase (open of the
+temporary .. its close, torn writes included) is also faulted with a one-shot KeyboardInterrupt /
+SystemExit / GeneratorExit / CancelledError; right afterwards keys() must list no residue and the key
+must read old-or-new, then further completed operations (biased to deleting that key) are applied
+and after a reopen the database must equal exactly the last completed operations (the documented
+`except BaseException: new.remove()` contract; interrupts between the later remove and rename are
+NOT injected: the statement only quantifies over crashes there and the code makes no promise).
+
 Guards: nothing is demanded about *which* of old/new survives; values carry unique ids so that a
 read identifies its write; the buffered-write model is conservative (bytes reach the disk only at
 flush/close or as a torn prefix at the crash point) but never invents bytes.
@@ -46,7 +54,8 @@ ASSUMPTIONS = [
 ]
 SHARDS = {"quick": 4, "thorough": 16}
 FLOORS = {"crash_runs": 200, "reopen_checks": 200, "nested_crash_runs": 20, "torn_write_points": 50,
-          "interrupted_old_kept": 10, "interrupted_new_kept": 10, "replace_ops_faulted": 3, "delete_ops_faulted": 1}
+          "interrupted_old_kept": 10, "interrupted_new_kept": 10, "replace_ops_faulted": 3, "delete_ops_faulted": 1,
+          "interrupt_runs": 100, "interrupt_cleanup_verified": 100, "deletes_after_interrupt": 20}
 READY = True
 
 VALUE_SIZES = [0, 1, 2, 7, 16, 17, 100, 1000, 4096, 8192]
@@ -231,6 +240,107 @@ class Case:
             self.check(p2, True)
             self.nested(left2, p2, depth - 1)
 
+    # ---- interrupts in a surviving process --------------------------------------------------------
+    def interrupts(self, count):
+        """The write phase of a set (from the open-for-write of the temporary to its close) is
+        interrupted by a non-Exception BaseException that the process survives; the documented
+        clean-up must leave no residue: right away keys()/the key's value are old-or-new with no
+        stray entry, further completed operations win, and a later reopen shows exactly them."""
+        ctx = self.ctx
+        opens = [k for k, kind, _, _ in count.log if kind == "open"]
+        closes = [k for k, kind, _, _ in count.log if kind == "close"]
+        if not opens or not closes:
+            return
+        import asyncio
+
+        excs = [KeyboardInterrupt, SystemExit, GeneratorExit, asyncio.CancelledError]
+        others = sorted(k for k in self.model if k != self.key)
+        for n, (k, plen) in enumerate(crash_points(count.log, opens[0], closes[0] + 1)):
+            rng = ctx.case_rng("cont", self.case_id, k, plen)
+            cont = [("delK",)] if n % 2 == 0 else []
+            for _ in range(rng.randrange(0, 3)):
+                r = rng.random()
+                if r < 0.3:
+                    cont.append(("delK",))
+                elif r < 0.55:
+                    cont.append(("set", self.key, b"<after-interrupt-%d>" % len(cont) + bytes(rng.randrange(256) for _ in range(rng.choice([0, 5, 300])))))
+                elif r < 0.8 or not others:
+                    cont.append(("set", b"other-%d" % rng.randrange(3), b"<o%d>" % len(cont)))
+                else:
+                    cont.append(("del", rng.choice(others)))
+            exc = excs[n % len(excs)]
+            point = [("interrupt", k, count.log[k][1], plen, exc.__name__), ("then", cont)]
+            restore_tree(self.dbdir, self.pristine)
+            fs = self.fs().arm(k, plen, raises=exc)
+            model = dict(self.model)
+            raised = None
+            with fs:
+                db = self.cls(self.dbdir)
+                try:
+                    apply_op(db, self.last)
+                except Crash:
+                    raise
+                except BaseException as e:
+                    raised = e
+                if not fs.fired:
+                    ctx.inconclusive("C51: interrupt point not reached on re-execution")
+                    continue
+                ctx.count("interrupt_runs")
+                ctx.count("interrupt_at_" + count.log[k][1])
+                ctx.evaluated()
+                ctx.distinct((self.case_id, repr(point)))
+                try:
+                    keys = db.keys()
+                    val = db.get(self.key)
+                except Exception as e:
+                    ctx.violation("stray-file-visible-after-interrupt", "after an interrupted set in a surviving process keys()/get() raise or expose residue",
+                                  self.witness(point, {"exception": repr(e), "raised_by_set": repr(raised)}))
+                    continue
+                if val not in (self.old, self.new):
+                    ctx.violation("interrupted-key-wrong-value-in-surviving-process", "after an interrupted set the key has neither its old nor its new value",
+                                  self.witness(point, {"old": self.old, "new": self.new, "got": val}))
+                    continue
+                if val is None:
+                    model.pop(self.key, None)
+                else:
+                    model[self.key] = val
+                if sorted(keys) != sorted(model):
+                    ctx.violation("stray-file-visible-after-interrupt", "after an interrupted set in a surviving process keys() shows an entry that is not a stored key",
+                                  self.witness(point, {"keys": keys, "expected": sorted(model)}))
+                else:
+                    ctx.count("interrupt_cleanup_verified")
+                try:
+                    for op in cont:
+                        if op[0] == "delK":
+                            if self.key in model:
+                                del db[self.key]
+                                del model[self.key]
+                                ctx.count("deletes_after_interrupt")
+                        elif op[0] == "set":
+                            db[op[1]] = op[2]
+                            model[op[1]] = op[2]
+                        elif op[1] in model:
+                            del db[op[1]]
+                            del model[op[1]]
+                except Exception as e:
+                    ctx.violation("operation-after-interrupt-raised", "a set/delete after the interrupted set raised", self.witness(point, {"exception": repr(e)}))
+                    continue
+            ctx.count("reopen_checks")
+            try:
+                with self.fs():
+                    db2 = self.cls(self.dbdir)
+                    got = dict(db2.items())
+                    n_keys = len(db2)
+            except Exception as e:
+                ctx.violation("reopen-or-read-raised", "reopening / listing the database after the interrupted set raised", self.witness(point, {"exception": repr(e)}))
+                continue
+            if got != model or n_keys != len(model):
+                back = sorted(set(got) - set(model))
+                ctx.violation("completed-operation-lost-after-interrupt",
+                              "after an interrupted set, later completed operations and a reopen, the database differs from the last completed operations"
+                              + (" (a deleted key is back)" if back else ""),
+                              self.witness(point, {"resurrected_keys": back, "expected": model, "got": got}))
+
     def run(self, depth):
         ctx = self.ctx
         try:
@@ -272,6 +382,8 @@ class Case:
                 if db is not None:
                     self.follow_up(db, path)
                 self.nested(left, path, depth)
+            if self.last[0] == "set":
+                self.interrupts(count)
             ctx.sample({"history": [(o[0], o[1], len(o[2]) if len(o) > 2 else None) for o in self.ops],
                         "faulted_op": (self.last[0], self.last[1], len(self.last[2]) if len(self.last) > 2 else None),
                         "calls": [(k, kind, pend) for k, kind, _, pend in count.log], "crash_points": len(pts)})
